@@ -355,6 +355,34 @@ def writer_rules(ck):
         ok = (tested and pat == ['#{name}.{idx}#'] and len(assigns) == 1 and 'with_name' in u(assigns[0].value) and len(idx_inc) == 1
               and idx_init == [1] and len(init) == 1 and param in u(init[0]) and not any(isinstance(n, (ast.Break, ast.Return)) for n in ast.walk(w)))
         detail = 'candidate `{}` starts as the path itself, is renamed #name.N# with N = 1, 2, ... while it exists'.format(cand)
+    if not ok:
+        # any other spelling of the search: interpreted against a stand-in file system
+        from .. import interp
+
+        class FakePath(interp.Model):
+            def __init__(self, name, existing):
+                self.name, self._existing = name, existing
+
+            def exists(self):
+                return self.name in self._existing
+
+            def with_name(self, name):
+                return FakePath(name, self._existing)
+        good = True
+        for existing in (set(), {'f'}, {'f', '#f.1#'}, {'f', '#f.1#', '#f.2#', '#f.3#'}, {'#f.1#'}, {'f', '#f.2#'}):
+            want = next(n for n in ['f'] + ['#f.{}#'.format(k) for k in range(1, 9)] if n not in existing)
+            env_ = {free.args.args[-1].arg: FakePath('f', existing), 'pathlib.Path': lambda p_: p_, 'Path': lambda p_: p_, 'str': lambda p_: p_,
+                    'itertools.count': lambda start=0: list(range(start, start + 40)), 'count': lambda start=0: list(range(start, start + 40))}
+            try:
+                got = interp.call(free.body, env_)
+            except (interp.Unsupported, AttributeError, TypeError) as err:
+                good, detail = False, 'code outside the interpretable fragment: {}'.format(err)
+                break
+            if not isinstance(got, FakePath) or got.name != want:
+                good, detail = False, 'with existing files {} the search returns {!r}, the first free name is {!r}'.format(sorted(existing), getattr(got, 'name', got), want)
+                break
+        if good:
+            ok, detail = True, 'interpreted against 6 stand-in directories: the first name of f, #f.1#, #f.2#, ... that does not exist is returned'
     ck.ob('PROV-free-path', fw.loc(free), ok, 'the backup name returned did not exist when tested: ' + detail, key='PROV-free-path')
 
     # ---- write(): dispatch on the recorded mode
